@@ -182,6 +182,10 @@ func genC04(r *Rng, tier string, emit func(Case)) {
 		ni := r.Intn(len(nets))
 		e("hd", "rand", itoa(ni), hx(genSeed(r)), joinOr(genPath(r, 6), ","))
 	}
+	// seed lengths far outside the legal range, around every multiple of 256 (a length squeezed into a byte wraps)
+	for _, l := range []int{0, 1, 15, 16, 64, 65, 100, 255, 256, 257, 271, 272, 288, 320, 321, 511, 512, 528, 544, 1040, 65552} {
+		e("hd", "seedlen", "0", hx(r.Bytes(l)), "-")
+	}
 	// leading-zero child scalars: derive siblings until the serialised private key has a 0 first key byte
 	found := 0
 	want := 2
@@ -326,6 +330,7 @@ func genC05(r *Rng, tier string, emit func(Case)) {
 		e("xkey", "length", hs(reck(pp)))
 		// leading '1' variants
 		e("xkey", "lead1", hs("1"+s))
+		e("xkey", "utf8", hs(utf8Variant(r, s)))
 		zp := append([]byte{}, payload...)
 		zp[0] = 0
 		e("xkey", "zero-version-byte", hs(reck(zp)))
